@@ -87,16 +87,17 @@ type Op struct {
 	R    string `json:"r,omitempty"`    // request id
 	To   string `json:"to,omitempty"`   // rename target
 	Days int    `json:"days,omitempty"` // removeold
+	Size string `json:"size,omitempty"` // run, open, write, update: size class of the recorded status ("" small, "1k", "70k")
 }
 
 func (o Op) String() string {
 	switch o.K {
 	case "run", "open":
-		return fmt.Sprintf("%s(%s,%s,%s)", o.K, o.D, o.T, o.R)
+		return fmt.Sprintf("%s(%s,%s,%s%s)", o.K, o.D, o.T, o.R, sizeArg(o.Size))
 	case "write", "close":
-		return fmt.Sprintf("%s(%s)", o.K, o.R)
+		return fmt.Sprintf("%s(%s%s)", o.K, o.R, sizeArg(o.Size))
 	case "update":
-		return fmt.Sprintf("update(%s,%s)", o.D, o.R)
+		return fmt.Sprintf("update(%s,%s%s)", o.D, o.R, sizeArg(o.Size))
 	case "rename":
 		return fmt.Sprintf("rename(%s->%s)", o.D, o.To)
 	case "removeold":
@@ -105,6 +106,13 @@ func (o Op) String() string {
 		return fmt.Sprintf("removeall(%s)", o.D)
 	}
 	return o.K
+}
+
+func sizeArg(size string) string {
+	if size == "" {
+		return ""
+	}
+	return ",payload~" + size
 }
 
 func opsString(ops []Op) string {
@@ -229,6 +237,7 @@ type Search struct {
 	Depth   int
 	MaxRuns int
 	MaxOpen int
+	Sizes   []string // payload size classes of the statuses recorded by run/open/write/update (nil = small only)
 }
 
 func (s *Search) has(kind string) bool {
@@ -249,30 +258,42 @@ func (s *Search) universe() []Op {
 			ids = append(ids, reqID(d, t))
 		}
 	}
+	sizes := s.Sizes
+	if len(sizes) == 0 {
+		sizes = []string{""}
+	}
 	if s.has("run") {
-		for _, t := range s.Times {
-			for _, d := range s.Dags {
-				u = append(u, Op{K: "run", D: d, T: times[t].Label, R: reqID(d, t)})
+		for _, sz := range sizes {
+			for _, t := range s.Times {
+				for _, d := range s.Dags {
+					u = append(u, Op{K: "run", D: d, T: times[t].Label, R: reqID(d, t), Size: sz})
+				}
 			}
 		}
 	}
 	if s.has("open") {
-		for _, t := range s.Times {
-			for _, d := range s.Dags {
-				u = append(u, Op{K: "open", D: d, T: times[t].Label, R: reqID(d, t)})
+		for _, sz := range sizes {
+			for _, t := range s.Times {
+				for _, d := range s.Dags {
+					u = append(u, Op{K: "open", D: d, T: times[t].Label, R: reqID(d, t), Size: sz})
+				}
 			}
 		}
-		for _, id := range ids {
-			u = append(u, Op{K: "write", R: id})
+		for _, sz := range sizes {
+			for _, id := range ids {
+				u = append(u, Op{K: "write", R: id, Size: sz})
+			}
 		}
 		for _, id := range ids {
 			u = append(u, Op{K: "close", R: id})
 		}
 	}
 	if s.has("update") {
-		for _, d := range s.Dags {
-			for _, id := range ids {
-				u = append(u, Op{K: "update", D: d, R: id})
+		for _, sz := range sizes {
+			for _, d := range s.Dags {
+				for _, id := range ids {
+					u = append(u, Op{K: "update", D: d, R: id, Size: sz})
+				}
 			}
 		}
 	}
@@ -342,11 +363,27 @@ func (m *Model) enabled(o Op, s *Search) bool {
 	return false
 }
 
-func toggle(last, a, b string) string {
-	if last == a {
-		return b
+// Payload keys: <kind>[+<size class>], e.g. "done", "run-B", "upd-A+70k".
+func withSize(key, size string) string {
+	if size == "" {
+		return key
 	}
-	return a
+	return key + "+" + size
+}
+
+func splitPayload(key string) (base, size string) {
+	if i := strings.IndexByte(key, '+'); i >= 0 {
+		return key[:i], key[i+1:]
+	}
+	return key, ""
+}
+
+// toggle: the next status of that kind differs from the last one recorded (a, b alternate).
+func toggle(last, a, b, size string) string {
+	if base, _ := splitPayload(last); base == a {
+		return withSize(b, size)
+	}
+	return withSize(a, size)
 }
 
 // older: would retention with the given number of days remove this run's file?
@@ -365,9 +402,9 @@ func (m *Model) apply(o Op, today, now time.Time) *Model {
 	switch o.K {
 	case "run", "open":
 		t := timeIndex(o.T)
-		r := &Run{ID: o.R, T: t, Last: "done", Lineage: o.D}
+		r := &Run{ID: o.R, T: t, Last: withSize("done", o.Size), Lineage: o.D}
 		if o.K == "open" {
-			r.Last, r.Open = "run-A", true
+			r.Last, r.Open = withSize("run-A", o.Size), true
 		}
 		c.Runs[o.D] = append(c.Runs[o.D], r)
 		c.sortRuns(o.D)
@@ -375,13 +412,13 @@ func (m *Model) apply(o Op, today, now time.Time) *Model {
 		c.Issued = append(c.Issued, o.R)
 	case "write":
 		_, r := c.findAny(o.R)
-		r.Last = toggle(r.Last, "run-A", "run-B")
+		r.Last = toggle(r.Last, "run-A", "run-B", o.Size)
 	case "close":
 		_, r := c.findAny(o.R)
 		r.Open = false
 	case "update":
 		r := c.find(o.D, o.R)
-		r.Last = toggle(r.Last, "upd-A", "upd-B")
+		r.Last = toggle(r.Last, "upd-A", "upd-B", o.Size)
 		r.Fresh = true
 	case "rename":
 		for _, r := range c.Runs[o.D] {
